@@ -280,3 +280,601 @@ Proof.
     + simpl. intros _. unfold live, live_d, dproj. simpl. rewrite A, N.eqb_refl. reflexivity.
 Qed.
 
+
+(* ---------------------------------------------------------------- handlers that only touch the term *)
+Definition sfilter (tr : list ev) : list ev := List.filter is_stable_ev tr.
+
+Lemma fold_sfilter tr : forall d, fold_left vt_apply tr d = fold_left vt_apply (sfilter tr) d.
+Proof.
+  induction tr as [|e r IH]; intros d; simpl; [reflexivity|].
+  destruct (is_stable_ev e) eqn:E; simpl.
+  - apply IH.
+  - rewrite vt_apply_nostable by exact E. apply IH.
+Qed.
+
+Lemma prefix_sfilter tr : forall d j,
+  exists j', fold_left vt_apply (firstn j tr) d = fold_left vt_apply (firstn j' (sfilter tr)) d.
+Proof.
+  induction tr as [|e r IH]; intros d j.
+  - exists 0%nat. destruct j; reflexivity.
+  - destruct j as [|j]; [exists 0%nat; reflexivity|]. simpl.
+    destruct (is_stable_ev e) eqn:E.
+    + destruct (IH (vt_apply d e) j) as [j' Hj']. exists (S j'). simpl. exact Hj'.
+    + rewrite vt_apply_nostable by exact E. destruct (IH d j) as [j' Hj']. exists j'. exact Hj'.
+Qed.
+
+Lemma sfilter_app a b : sfilter (a ++ b) = sfilter a ++ sfilter b.
+Proof. apply filter_app. Qed.
+
+Lemma sfilter_fsm_events l : sfilter (flat_map fsm_events l) = [].
+Proof.
+  induction l as [|e r IH]; simpl; [reflexivity|].
+  rewrite sfilter_app, IH, app_nil_r. unfold fsm_events.
+  destruct (e_ty e =? LogCommand); [reflexivity|]. destruct (e_ty e =? LogConfiguration); reflexivity.
+Qed.
+
+Lemma do_stage_spec P s c : dproj (fst (do_stage P s c)) = dproj s /\ v_term (fst (do_stage P s c)) = v_term s /\
+  sfilter (snd (do_stage P s c)) = [].
+Proof. unfold do_stage. destruct (p_track P); simpl; auto. Qed.
+
+Lemma do_store_spec P s fs es : dproj (fst (fst (do_store P s fs es))) = dproj s /\
+  v_term (fst (fst (do_store P s fs es))) = v_term s.
+Proof. unfold do_store. destruct (next_fail fs) as [f fs']. destruct f; simpl; auto. Qed.
+
+Lemma do_delete_spec s fs lo hi : dproj (fst (fst (do_delete s fs lo hi))) = dproj s /\
+  v_term (fst (fst (do_delete s fs lo hi))) = v_term s.
+Proof. unfold do_delete. destruct (next_fail fs) as [f fs']. destruct f; simpl; auto. Qed.
+
+Lemma process_config_entry_spec P s e : dproj (process_config_entry P s e) = dproj s /\
+  v_term (process_config_entry P s e) = v_term s.
+Proof. unfold process_config_entry. destruct (e_ty e =? LogConfiguration); simpl; auto. Qed.
+
+Lemma fold_config_entries_spec P es : forall s,
+  dproj (fold_left (process_config_entry P) es s) = dproj s /\
+  v_term (fold_left (process_config_entry P) es s) = v_term s.
+Proof.
+  induction es as [|e r IH]; intros s; simpl; [auto|].
+  destruct (IH (process_config_entry P s e)) as [A B].
+  destruct (process_config_entry_spec P s e) as [C D]. rewrite A, B. auto.
+Qed.
+
+Lemma process_logs_spec s idx s' tr : process_logs s idx = Some (s', tr) ->
+  dproj s' = dproj s /\ v_term s' = v_term s /\ sfilter tr = [].
+Proof.
+  unfold process_logs. destruct (idx <=? v_applied s).
+  - intros H; inversion H; subst. auto.
+  - destruct (collect_logs _ _ _) as [es|]; [|discriminate].
+    intros H; inversion H; subst. simpl. repeat split. apply sfilter_fsm_events.
+Qed.
+
+(* outcome of a body that performs no stable-store operation of its own *)
+Definition body_ok {R} (s2 : nstate) (tr1 : list ev) (o : outcome R) : Prop :=
+  match o with
+  | Done s' _ tr _ => sfilter tr = sfilter tr1 /\ dproj s' = dproj s2 /\ v_term s' = v_term s2
+  | Panic _ tr => sfilter tr = sfilter tr1
+  end.
+
+Definition cont_ok (s2 : nstate) (tr1 : list ev) (c : ae_cont) : Prop :=
+  match c with
+  | inl (Some (s8, tr8, _)) => sfilter tr8 = sfilter tr1 /\ dproj s8 = dproj s2 /\ v_term s8 = v_term s2
+  | inl None => True
+  | inr (_, s', tr', _) => sfilter tr' = sfilter tr1 /\ dproj s' = dproj s2 /\ v_term s' = v_term s2
+  end.
+
+Lemma store_new_ok P fr lc s2 tr1 s3 tr3 fs3 news :
+  dproj s3 = dproj s2 -> v_term s3 = v_term s2 -> sfilter tr3 = sfilter tr1 ->
+  cont_ok s2 tr1 (store_new P fr lc s3 tr3 fs3 news).
+Proof.
+  intros H1 H2 H3. unfold store_new.
+  pose proof (do_stage_spec P s3 (N.min lc (e_idx (last_of news)))) as (S1 & S2 & S3).
+  destruct (do_stage P s3 _) as [s4 trs]. simpl in S1, S2, S3.
+  pose proof (do_store_spec P s4 fs3 news) as (T1 & T2).
+  destruct (do_store P s4 fs3 news) as [[s5 ok] fs5]. simpl in T1, T2.
+  destruct ok; simpl.
+  - rewrite !sfilter_app, S3, H3. simpl. rewrite app_nil_r.
+    destruct (fold_config_entries_spec P news s5) as [U1 U2].
+    split; [reflexivity|]. split.
+    + change (dproj (fold_left (process_config_entry P) news s5) = dproj s2). congruence.
+    + change (v_term (fold_left (process_config_entry P) news s5) = v_term s2). congruence.
+  - rewrite !sfilter_app, S3, H3. simpl. rewrite app_nil_r. split; [reflexivity|]. split; congruence.
+Qed.
+
+Lemma ae_entries_ok P fr s2 tr1 fs1 a : cont_ok s2 tr1 (ae_entries P fr s2 tr1 fs1 a).
+Proof.
+  unfold ae_entries. destruct (aq_entries a) as [|e0 es0]; [simpl; auto|].
+  destruct (scan_entries (d_log s2) (v_lastLogIdx s2) (e0 :: es0)) as [news|ci news| |]; try (simpl; auto; fail).
+  - apply store_new_ok; auto.
+  - pose proof (do_delete_spec s2 fs1 ci (v_lastLogIdx s2)) as (D1 & D2).
+    destruct (do_delete s2 fs1 ci (v_lastLogIdx s2)) as [[s3 ok] fs3]. simpl in D1, D2.
+    destruct ok; simpl.
+    + apply store_new_ok.
+      * destruct (ci <=? v_latestIdx s3); exact D1.
+      * destruct (ci <=? v_latestIdx s3); exact D2.
+      * rewrite sfilter_app. simpl. rewrite app_nil_r. reflexivity.
+    + rewrite sfilter_app. simpl. rewrite app_nil_r. auto.
+Qed.
+
+Lemma ae_commit_ok okr s2 tr1 s8 tr8 fs8 a :
+  sfilter tr8 = sfilter tr1 -> dproj s8 = dproj s2 -> v_term s8 = v_term s2 ->
+  body_ok s2 tr1 (ae_commit okr s8 tr8 fs8 a).
+Proof.
+  intros F1 F2 F3. unfold ae_commit.
+  destruct ((0 <? aq_commit a) && (v_commit s8 <? aq_commit a)); [|simpl; auto].
+  match goal with |- context [process_logs ?S ?I] => destruct (process_logs S I) as [[s11 tra]|] eqn:EP end.
+  - apply process_logs_spec in EP. destruct EP as (G1 & G2 & G3). simpl.
+    rewrite sfilter_app, G3, app_nil_r. split; [exact F1|].
+    split; [rewrite G1|rewrite G2]; destruct (v_latestIdx _ <=? _); assumption.
+  - simpl. exact F1.
+Qed.
+
+Lemma ae_body_ok P s0 s2 rt tr1 fs1 a : body_ok s2 tr1 (ae_body P s0 s2 rt tr1 fs1 a).
+Proof.
+  unfold ae_body. destruct (prev_check s2 a) as [[|]|]; try (simpl; auto; fail).
+  pose proof (ae_entries_ok P (mkAResp rt (last_index s0) false false false) s2 tr1 fs1 a) as Hae.
+  destruct (ae_entries P _ s2 tr1 fs1 a) as [[[[s8 tr8] fs8]|]|[[[resp s'] tr'] fs']]; simpl in Hae.
+  - destruct Hae as (F1 & F2 & F3). apply ae_commit_ok; assumption.
+  - simpl. reflexivity.
+  - simpl. exact Hae.
+Qed.
+
+Lemma run_compaction_spec s fs range :
+  let '(s', tr, _) := run_compaction s fs range in
+  dproj s' = dproj s /\ v_term s' = v_term s /\ sfilter tr = [].
+Proof.
+  unfold run_compaction. destruct range as [[lo hi]|]; [|auto].
+  pose proof (do_delete_spec s fs lo hi) as (D1 & D2).
+  destruct (do_delete s fs lo hi) as [[s' ok] fs']. auto.
+Qed.
+
+Lemma is_body_ok P s2 rt tr1 fs1 q : body_ok s2 tr1 (is_body P s2 rt tr1 fs1 q).
+Proof.
+  unfold is_body. destruct (next_fail fs1) as [fc fs2]. destruct fc.
+  { simpl. rewrite sfilter_app. simpl. rewrite app_nil_r. auto. }
+  destruct (iq_short q); [simpl; auto|].
+  destruct (next_fail fs2) as [fcl fs3]. destruct fcl.
+  { simpl. rewrite sfilter_app. simpl. rewrite app_nil_r. auto. }
+  match goal with |- context [run_compaction ?S ?F ?R] =>
+    pose proof (run_compaction_spec S F R) as Hc; destruct (run_compaction S F R) as [[s7 trc] fs4] end.
+  destruct Hc as (C1 & C2 & C3). simpl.
+  rewrite sfilter_app. simpl. rewrite C3, app_nil_r. auto.
+Qed.
+
+(* ---------------------------------------------------------------- term-only events *)
+Lemma good_term_only P s e t : wfd s -> d_term s <= t -> good_d P s e (t, d_vterm s, d_vcand s).
+Proof.
+  intros Hwf Hle. unfold wfd in Hwf. unfold good_d, wfd_d, live, live_d, dproj; simpl.
+  repeat split; try lia.
+  - intros T c HL HT. subst t. destruct (d_vterm s =? d_term s) eqn:E; [|discriminate].
+    destruct (d_vcand s); [|discriminate]. inversion HL; subst. rewrite N.eqb_refl. reflexivity.
+  - intros T c HL Hne. exfalso. apply Hne. destruct (d_vterm s =? t) eqn:E; [|discriminate].
+    apply N.eqb_eq in E. assert (d_vterm s = d_term s) as -> by lia. rewrite N.eqb_refl.
+    destruct (d_vcand s); [|discriminate]. inversion HL; subst. f_equal. f_equal. lia.
+Qed.
+
+Lemma term_only_prefixes P s e tr t :
+  wfd s -> d_term s <= t ->
+  (sfilter tr = [] \/ sfilter tr = [ESetTerm t true] \/ sfilter tr = [ESetTerm t false]) ->
+  forall j, good_d P s e (fold_left vt_apply (firstn j tr) (dproj s)).
+Proof.
+  intros Hwf Hle Htr j. destruct (prefix_sfilter tr (dproj s) j) as [j' ->].
+  destruct Htr as [->|[->| ->]].
+  - destruct j'; simpl; apply good_d_refl; exact Hwf.
+  - destruct j' as [|[|j']]; simpl; try (apply good_d_refl; exact Hwf); apply good_term_only; assumption.
+  - destruct j' as [|[|j']]; simpl; apply good_d_refl; exact Hwf.
+Qed.
+
+Lemma bump_cases s fs t (b : bool) :
+  let X := (if b then match do_set_term (set_state s Follower) fs t with
+                      | Some (s1, fs1) => Some (s1, fs1, [ESetTerm t true])
+                      | None => None end
+            else Some (s, fs, [])) in
+  (X = None /\ b = true) \/
+  (exists s1 fs1 tr1, X = Some (s1, fs1, tr1) /\
+     ((tr1 = [] /\ s1 = s /\ b = false) \/
+      (tr1 = [ESetTerm t true] /\ dproj s1 = (t, d_vterm s, d_vcand s) /\ v_term s1 = t /\ b = true))).
+Proof.
+  destruct b; simpl.
+  - destruct (do_set_term (set_state s Follower) fs t) as [[s1 fs1]|] eqn:E; [|left; auto].
+    right. exists s1, fs1, [ESetTerm t true]. split; [reflexivity|]. right.
+    apply do_set_term_spec in E. destruct E as (A & B & C & D & _).
+    unfold dproj. rewrite A, C, D. simpl. auto.
+  - right. exists s, fs, []. auto.
+Qed.
+
+(* shared conclusion for AppendEntries / InstallSnapshot *)
+Lemma term_only_handler {R} P s e (t : N) (b : bool) fs (body : nstate -> list ev -> list bool -> outcome R)
+      (rterm : R -> N) :
+  wfu s -> v_term s <= t -> (b = false -> t = v_term s) ->
+  (forall s1 tr1 fs1, body_ok s1 tr1 (body s1 tr1 fs1)) ->
+  match (match (if b then match do_set_term (set_state s Follower) fs t with
+                          | Some (s1, fs1) => Some (s1, fs1, [ESetTerm t true])
+                          | None => None end
+                else Some (s, fs, [])) with
+         | None => Panic (set_state s Follower) [ESetTerm t false]
+         | Some (s1, fs1, tr1) => body s1 tr1 fs1
+         end) with
+  | Done s' r tr fs' =>
+      wfu s' /\ dproj s' = fold_left vt_apply tr (dproj s) /\
+      (forall j, good_d P s e (fold_left vt_apply (firstn j tr) (dproj s)))
+  | Panic s' tr => forall j, good_d P s e (fold_left vt_apply (firstn j tr) (dproj s))
+  end.
+Proof.
+  intros Hw Hle Hb Hbody. pose proof Hw as [Hwf Hvt]. unfold wfd in Hwf.
+  destruct (bump_cases s fs t b) as [[-> _]|(s1 & fs1 & tr1 & -> & Hc)].
+  - intros j. apply (term_only_prefixes P s e _ t Hwf); [lia|]. right. right. reflexivity.
+  - specialize (Hbody s1 tr1 fs1). destruct (body s1 tr1 fs1) as [s' r tr fs'|s' tr]; simpl in Hbody.
+    + destruct Hbody as (F1 & F2 & F3).
+      destruct Hc as [(-> & -> & Hbf)|(-> & Hd & Hv & _)].
+      * split; [unfold wfu, wfd; unfold dproj in F2; inversion F2; rewrite F3; lia|].
+        split; [rewrite fold_sfilter, F1; simpl; exact F2|].
+        apply (term_only_prefixes P s e tr t Hwf); [lia|]. left. exact F1.
+      * split; [unfold wfu, wfd; unfold dproj in F2, Hd; rewrite Hd in F2; inversion F2; rewrite F3, Hv; lia|].
+        split; [rewrite fold_sfilter, F1; simpl; rewrite F2; exact Hd|].
+        apply (term_only_prefixes P s e tr t Hwf); [lia|]. right. left. exact F1.
+    + destruct Hc as [(-> & -> & Hbf)|(-> & Hd & Hv & _)].
+      * apply (term_only_prefixes P s e tr t Hwf); [lia|]. left. exact Hbody.
+      * apply (term_only_prefixes P s e tr t Hwf); [lia|]. right. left. exact Hbody.
+Qed.
+
+Lemma append_entries_good P s fs a : wfu s ->
+  match append_entries P s fs a with
+  | Done s' r tr fs' =>
+      wfu s' /\ dproj s' = fold_left vt_apply tr (dproj s) /\
+      (forall j, good_d P s (NAppend a) (fold_left vt_apply (firstn j tr) (dproj s)))
+  | Panic s' tr => forall j, good_d P s (NAppend a) (fold_left vt_apply (firstn j tr) (dproj s))
+  end.
+Proof.
+  intros Hw. pose proof Hw as [Hwf Hvt]. unfold append_entries.
+  destruct (aq_term a <? v_term s) eqn:E.
+  { split; [exact Hw|]. split; [reflexivity|]. intros j. destruct j; apply good_d_refl; exact Hwf. }
+  apply N.ltb_ge in E.
+  set (b := (v_term s <? aq_term a) || (negb (v_role s =? Follower) && negb (v_transfer s))).
+  apply (term_only_handler P s (NAppend a) (aq_term a) b fs
+           (fun s1 tr1 fs1 => ae_body P s (set_leader s1 (aq_addr a) (aq_id a))
+                                      (if b then aq_term a else v_term s) tr1 fs1 a) ar_term); auto.
+  - intros Hb. subst b. apply orb_false_iff in Hb. destruct Hb as [Hb _]. apply N.ltb_ge in Hb. lia.
+  - intros s1 tr1 fs1.
+    pose proof (ae_body_ok P s (set_leader s1 (aq_addr a) (aq_id a)) (if b then aq_term a else v_term s) tr1 fs1 a) as H.
+    destruct (ae_body _ _ _ _ _ _ _); simpl in *; exact H.
+Qed.
+
+Lemma install_snapshot_good P s fs q : wfu s ->
+  match install_snapshot P s fs q with
+  | Done s' r tr fs' =>
+      wfu s' /\ dproj s' = fold_left vt_apply tr (dproj s) /\
+      (forall j, good_d P s (NInstall q) (fold_left vt_apply (firstn j tr) (dproj s)))
+  | Panic s' tr => forall j, good_d P s (NInstall q) (fold_left vt_apply (firstn j tr) (dproj s))
+  end.
+Proof.
+  intros Hw. pose proof Hw as [Hwf Hvt]. unfold install_snapshot.
+  destruct (iq_term q <? v_term s) eqn:E.
+  { split; [exact Hw|]. split; [reflexivity|]. intros j. destruct j; apply good_d_refl; exact Hwf. }
+  apply N.ltb_ge in E.
+  apply (term_only_handler P s (NInstall q) (iq_term q) (v_term s <? iq_term q) fs
+           (fun s1 tr1 fs1 => is_body P (set_leader s1 (iq_addr q) (iq_id q))
+                                      (if v_term s <? iq_term q then iq_term q else v_term s) tr1 fs1 q)
+           (fun r => fst (fst r))); auto.
+  - intros Hb. apply N.ltb_ge in Hb. lia.
+  - intros s1 tr1 fs1.
+    pose proof (is_body_ok P (set_leader s1 (iq_addr q) (iq_id q)) (if v_term s <? iq_term q then iq_term q else v_term s) tr1 fs1 q) as H.
+    destruct (is_body _ _ _ _ _ _); simpl in *; exact H.
+Qed.
+
+(* ---------------------------------------------------------------- electSelf *)
+Lemma elect_self_good P s fs : wfu s ->
+  match elect_self P s fs with
+  | Done s' r tr fs' =>
+      wfu s' /\ dproj s' = fold_left vt_apply tr (dproj s) /\
+      (forall j, good_d P s NElect (fold_left vt_apply (firstn j tr) (dproj s)))
+  | Panic s' tr => forall j, good_d P s NElect (fold_left vt_apply (firstn j tr) (dproj s))
+  end.
+Proof.
+  intros Hw. pose proof Hw as [Hwf Hvt]. unfold wfd in Hwf. unfold elect_self.
+  assert (Hrefl : good_d P s NElect (dproj s)) by (apply good_d_refl; exact Hwf).
+  destruct (do_set_term s fs (v_term s + 1)) as [[s1 fs1]|] eqn:E.
+  2:{ intros j. destruct j as [|[|j]]; simpl; exact Hrefl. }
+  apply do_set_term_spec in E. destruct E as (A & B & C & D & EL & F & _).
+  assert (Hd1 : dproj s1 = (v_term s + 1, d_vterm s, d_vcand s)) by (unfold dproj; rewrite A, C, D; reflexivity).
+  assert (Hg1 : good_d P s NElect (v_term s + 1, d_vterm s, d_vcand s)).
+  { apply good_term_only; [exact Hwf|lia]. }
+  destruct (last_entry s1) as [li lt].
+  destruct (existsb (fun sv => is_voter sv && (s_id sv =? p_self P)) (v_latest s1)) eqn:EV.
+  - pose proof (persist_vote_spec s1 fs1 (v_term s + 1) (p_self P)) as Hp.
+    destruct (persist_vote s1 fs1 (v_term s + 1) (p_self P)) as [[[s2 ok] tr2] fs2].
+    assert (Hg2 : good_d P s NElect (v_term s + 1, d_vterm s, Some (p_self P))).
+    { unfold good_d, wfd_d, live, live_d, dproj; simpl. repeat split; try lia.
+      - intros T c HL HT. destruct (d_vterm s =? d_term s) eqn:EE; [|discriminate].
+        destruct (d_vcand s); inversion HL; subst. lia.
+      - intros T c HL _. destruct (d_vterm s =? v_term s + 1) eqn:EE; [|discriminate]. lia. }
+    assert (Hg3 : good_d P s NElect (v_term s + 1, v_term s + 1, Some (p_self P))).
+    { unfold good_d, wfd_d, live, live_d, dproj; simpl. repeat split; try lia.
+      - intros T c HL HT. destruct (d_vterm s =? d_term s) eqn:EE; [|discriminate].
+        destruct (d_vcand s); inversion HL; subst. lia.
+      - intros T c HL _. rewrite N.eqb_refl in HL. inversion HL; subst. right.
+        repeat split; auto. rewrite <- EL. exact EV. }
+    simpl. destruct Hp as [(-> & -> & ->)|[(-> & -> & ->)|(-> & -> & ->)]].
+    + split; [unfold wfu, wfd; rewrite A, B, C; lia|]. split; [simpl; exact Hd1|].
+      intros j. destruct j as [|[|[|j]]]; simpl; first [exact Hrefl|exact Hg1].
+    + split; [unfold wfu, wfd; simpl; rewrite A, B, C; lia|].
+      split; [unfold dproj; simpl; rewrite A, C; reflexivity|].
+      intros j. destruct j as [|[|[|[|j]]]]; simpl; first [exact Hrefl|exact Hg1|exact Hg2].
+    + split; [unfold wfu, wfd; simpl; rewrite A, B; lia|].
+      split; [unfold dproj; simpl; rewrite A; reflexivity|].
+      intros j. destruct j as [|[|[|[|j]]]]; simpl; first [exact Hrefl|exact Hg1|exact Hg2|exact Hg3].
+  - simpl. split; [unfold wfu, wfd; rewrite A, B, C; lia|]. split; [exact Hd1|].
+    intros j. destruct j as [|[|j]]; simpl; first [exact Hrefl|exact Hg1].
+Qed.
+
+(* ---------------------------------------------------------------- NewRaft *)
+Lemma scan_configs_spec P n : forall s from s',
+  scan_configs P s from n = Some s' -> dproj s' = dproj s /\ v_term s' = v_term s.
+Proof.
+  induction n as [|n IH]; intros s from s' H; simpl in H.
+  - inversion H; subst. auto.
+  - destruct (d_log s !! from) as [e|]; [|discriminate].
+    apply IH in H. destruct H as [H1 H2].
+    destruct (process_config_entry_spec P s e) as [A B]. rewrite H1, H2. auto.
+Qed.
+
+Lemma recover_spec P img s tr : recover P img = RecOk s tr ->
+  dproj s = dproj img /\ v_term s = d_term img.
+Proof.
+  unfold recover. destruct (rec_last _) as [le|]; [|discriminate].
+  destruct (rec_snapshot _) as [[s3 tr3]|] eqn:E3; [|discriminate].
+  assert (Hs3 : dproj s3 = dproj img /\ v_term s3 = d_term img).
+  { unfold rec_snapshot in E3. destruct (find sn_ok _) as [sn|].
+    - inversion E3; subst. auto.
+    - destruct (list_snaps _); [|discriminate]. inversion E3; subst. auto. }
+  destruct Hs3 as [Hd3 Hv3].
+  destruct (rec_committed P s3) as [[[s4 tr4]|]|] eqn:E4; try discriminate.
+  assert (Hs4 : dproj s4 = dproj img /\ v_term s4 = d_term img).
+  { unfold rec_committed in E4. destruct (p_rc P).
+    - destruct (negb (p_track P)); [discriminate|].
+      match type of E4 with context [process_logs ?S ?I] => destruct (process_logs S I) as [[s4' tr4']|] eqn:EP end; [|discriminate].
+      inversion E4; subst. apply process_logs_spec in EP. destruct EP as (G1 & G2 & _).
+      rewrite G1, G2. simpl. auto.
+    - inversion E4; subst. auto. }
+  destruct Hs4 as [Hd4 Hv4].
+  match goal with |- context [scan_configs P ?S ?F ?N] => destruct (scan_configs P S F N) as [s5|] eqn:ES end; [|discriminate].
+  intros H; inversion H; subst. apply scan_configs_spec in ES. destruct ES as [E1 E2]. rewrite E1, E2. auto.
+Qed.
+
+Lemma boot_spec P img r out : wfd img -> boot P img = (r, out) ->
+  wfr r /\ dproj (image r) = dproj img.
+Proof.
+  intros Hwf. unfold boot. destruct (recover P img) as [s tr| |] eqn:E; intros H; inversion H; subst; simpl.
+  - apply recover_spec in E. destruct E as [E1 E2]. split; [|exact E1].
+    unfold wfu, wfd in *. unfold dproj in E1. inversion E1. rewrite E2. lia.
+  - auto.
+  - auto.
+Qed.
+
+(* ---------------------------------------------------------------- one event, with crash cuts *)
+Definition handler_good {R} (P : params) (s : nstate) (e : nevent) (o : outcome R) : Prop :=
+  match o with
+  | Done s' r tr fs' =>
+      wfu s' /\ dproj s' = fold_left vt_apply tr (dproj s) /\
+      (forall j, good_d P s e (fold_left vt_apply (firstn j tr) (dproj s)))
+  | Panic s' tr => forall j, good_d P s e (fold_left vt_apply (firstn j tr) (dproj s))
+  end.
+
+Lemma good_d_wfd P s e img : good_d P s e (dproj img) -> wfd img.
+Proof. intros (H & _). exact H. Qed.
+
+Lemma finish_good {R} P (enc : R -> list N) (mk : R -> nobs) si s e cut (o : outcome R) :
+  wfu s -> handler_good P s e o ->
+  let '(r', ob, out) := finish P enc mk si s cut o in
+  wfr r' /\ good_d P s e (dproj (image r')) /\
+  (ob = OLost \/ exists s' r tr fs', o = Done s' r tr fs' /\ r' = Up s' /\ ob = mk r).
+Proof.
+  intros Hw Hg. unfold finish. destruct o as [s' r tr fs'|s' tr]; simpl in Hg.
+  - destruct Hg as (Hw' & Hd & Hj).
+    destruct ((0 <? cut) && (N.to_nat cut <=? count_durable tr)%nat).
+    + destruct (cut_image_prefix P si tr s (N.to_nat cut)) as [j Hjj].
+      pose proof (Hj j) as Hgood. rewrite <- Hjj in Hgood.
+      destruct (boot P (cut_image P si s tr (N.to_nat cut))) as [r' out] eqn:EB.
+      apply boot_spec in EB; [|eapply good_d_wfd; exact Hgood]. destruct EB as [B1 B2].
+      split; [exact B1|]. split; [rewrite B2; exact Hgood|]. left. reflexivity.
+    + split; [exact Hw'|]. split.
+      * simpl. rewrite Hd. rewrite <- (firstn_all tr) at 1. apply Hj.
+      * right. exists s', r, tr, fs'. auto.
+  - destruct (cut_image_prefix P si tr s (length tr)) as [j Hjj].
+    pose proof (Hg j) as Hgood. rewrite <- Hjj in Hgood.
+    destruct (boot P (cut_image P si s tr (length tr))) as [r' out] eqn:EB.
+    apply boot_spec in EB; [|eapply good_d_wfd; exact Hgood]. destruct EB as [B1 B2].
+    split; [exact B1|]. split; [rewrite B2; exact Hgood|]. left. reflexivity.
+Qed.
+
+Lemma wfr_wfd r : wfr r -> wfd (image r).
+Proof. destruct r; simpl; [intros [H _]; exact H|auto]. Qed.
+
+(* Every event, every failure pattern, every crash cut *)
+Theorem step_good P r e cut fs : wfr r ->
+  let '(r', ob, out) := step_full P r e cut fs in
+  wfr r' /\ good_d P (image r) e (dproj (image r')) /\
+  (forall q t, ob = OVote q t true -> live (image r') = Some (vq_term q, vq_addr q)) /\
+  (forall q t g s, ob = OVote q t g -> r = Up s -> v_term s <= t).
+Proof.
+  intros Hw. pose proof (wfr_wfd r Hw) as Hwd.
+  assert (Hsame : forall ob, wfr r /\ good_d P (image r) e (dproj (image r)) /\
+            (forall q t, ob = ONone -> ONone = OVote q t true -> live (image r) = Some (vq_term q, vq_addr q))).
+  { intros ob. split; [exact Hw|]. split; [apply good_d_refl; exact Hwd|]. intros; discriminate. }
+  unfold step_full. destruct r as [s|s]; destruct e as [q|q|a|q| | | |]; simpl.
+  - (* vote *)
+    pose proof (request_vote_good P s fs q Hw) as Hrv.
+    assert (Hh : handler_good P s (NVote q) (request_vote s fs q)).
+    { destruct (request_vote s fs q); simpl in *; [tauto|exact Hrv]. }
+    pose proof (finish_good P (fun x : N * bool => [fst x; b2n (snd x)]) (fun x => OVote q (fst x) (snd x)) None s (NVote q) cut _ Hw Hh) as Hf.
+    destruct (finish P _ _ None s cut (request_vote s fs q)) as [[r' ob] out].
+    destruct Hf as (F1 & F2 & F3). split; [exact F1|]. split; [exact F2|].
+    destruct F3 as [->|(s' & rr & tr & fs' & Ho & -> & ->)].
+    + split; intros; discriminate.
+    + rewrite Ho in Hrv. destruct Hrv as (_ & _ & _ & Ht & Hgr). split.
+      * intros q0 t0 Hob. inversion Hob; subst. simpl. apply Hgr. assumption.
+      * intros q0 t0 g0 s0 Hob Hs. inversion Hob; subst. inversion Hs; subst. exact Ht.
+  - (* pre-vote: no state change at all *)
+    destruct (request_prevote s q) as [t g]. split; [exact Hw|]. split; [apply good_d_refl; exact Hwd|].
+    split; intros; discriminate.
+  - (* append *)
+    pose proof (append_entries_good P s fs a Hw) as Hae.
+    pose proof (finish_good P (fun x : aresp => [ar_term x; ar_last x; b2n (ar_success x); b2n (ar_noretry x); b2n (ar_err x)])
+                  (fun x => OAppend a x) None s (NAppend a) cut _ Hw Hae) as Hf.
+    destruct (finish P _ _ None s cut (append_entries P s fs a)) as [[r' ob] out].
+    destruct Hf as (F1 & F2 & F3). split; [exact F1|]. split; [exact F2|].
+    destruct F3 as [->|(s' & rr & tr & fs' & Ho & -> & ->)]; split; intros; discriminate.
+  - (* install *)
+    pose proof (install_snapshot_good P s fs q Hw) as His.
+    match goal with |- context [finish P ?E ?M ?SI s cut ?O] =>
+      pose proof (finish_good P E M SI s (NInstall q) cut O Hw His) as Hf;
+      destruct (finish P E M SI s cut O) as [[r' ob] out] end.
+    destruct Hf as (F1 & F2 & F3). split; [exact F1|]. split; [exact F2|].
+    destruct F3 as [->|(s' & rr & tr & fs' & Ho & -> & ->)]; split; intros; discriminate.
+  - (* timeout now: volatile fields only *)
+    split; [exact Hw|]. split; [exact (good_d_refl P s NTimeoutNow Hwd)|]. split; intros; discriminate.
+  - (* elect *)
+    pose proof (elect_self_good P s fs Hw) as Hel.
+    match goal with |- context [finish P ?E ?M ?SI s cut ?O] =>
+      pose proof (finish_good P E M SI s NElect cut O Hw Hel) as Hf;
+      destruct (finish P E M SI s cut O) as [[r' ob] out] end.
+    destruct Hf as (F1 & F2 & F3). split; [exact F1|]. split; [exact F2|].
+    destruct F3 as [->|(s' & rr & tr & fs' & Ho & -> & ->)]; split; intros; discriminate.
+  - (* restart *)
+    destruct (boot P s) as [r' out] eqn:EB. apply boot_spec in EB; [|exact Hwd]. destruct EB as [B1 B2].
+    split; [exact B1|]. split; [rewrite B2; apply good_d_refl; exact Hwd|]. split; intros; discriminate.
+  - split; [exact Hw|]. split; [apply good_d_refl; exact Hwd|]. split; intros; discriminate.
+  - split; [exact Hw|]. split; [apply good_d_refl; exact Hwd|]. split; intros; discriminate.
+  - split; [exact Hw|]. split; [apply good_d_refl; exact Hwd|]. split; intros; discriminate.
+  - split; [exact Hw|]. split; [apply good_d_refl; exact Hwd|]. split; intros; discriminate.
+  - split; [exact Hw|]. split; [apply good_d_refl; exact Hwd|]. split; intros; discriminate.
+  - split; [exact Hw|]. split; [apply good_d_refl; exact Hwd|]. split; intros; discriminate.
+  - split; [exact Hw|]. split; [apply good_d_refl; exact Hwd|]. split; intros; discriminate.
+  - destruct (boot P s) as [r' out] eqn:EB. apply boot_spec in EB; [|exact Hwd]. destruct EB as [B1 B2].
+    split; [exact B1|]. split; [rewrite B2; apply good_d_refl; exact Hwd|]. split; intros; discriminate.
+  - split; [exact Hw|]. split; [apply good_d_refl; exact Hwd|]. split; intros; discriminate.
+Qed.
+
+(* ---------------------------------------------------------------- histories *)
+Definition input : Type := nevent * N * list bool.
+Definition hitem : Type := nrun * nevent * nobs * nrun.
+
+Fixpoint run_hist (P : params) (r : nrun) (ins : list input) : list hitem :=
+  match ins with
+  | [] => []
+  | (e, cut, fs) :: rest =>
+    let '(r', ob, _) := step_full P r e cut fs in (r, e, ob, r') :: run_hist P r' rest
+  end.
+
+Definition grant_of (h : hitem) : list (N * N) :=
+  match h with
+  | (_, _, OVote q _ true, _) => [(vq_term q, vq_addr q)]
+  | _ => []
+  end.
+Definition grants (h : list hitem) : list (N * N) := flat_map grant_of h.
+
+Definition functional (G : list (N * N)) : Prop :=
+  forall T c c', In (T, c) G -> In (T, c') G -> c = c'.
+
+Definition inv_grants (r : nrun) (G : list (N * N)) : Prop :=
+  forall T c, In (T, c) G ->
+    T < d_term (image r) \/ (d_term (image r) = T /\ live (image r) = Some (T, c)).
+
+Lemma live_term s T c : live s = Some (T, c) -> d_term s = T /\ d_vterm s = T /\ d_vcand s = Some c.
+Proof.
+  unfold live, live_d, dproj. destruct (d_vterm s =? d_term s) eqn:E; [|discriminate].
+  destruct (d_vcand s); [|discriminate]. intros H; inversion H; subst. apply N.eqb_eq in E. auto.
+Qed.
+
+Lemma grants_cons h rest : grants (h :: rest) = grant_of h ++ grants rest.
+Proof. reflexivity. Qed.
+
+Lemma run_hist_cons P r e cut fs rest :
+  run_hist P r ((e, cut, fs) :: rest) =
+  (r, e, snd (fst (step_full P r e cut fs)), fst (fst (step_full P r e cut fs)))
+    :: run_hist P (fst (fst (step_full P r e cut fs))) rest.
+Proof. simpl. destruct (step_full P r e cut fs) as [[r' ob] out]. reflexivity. Qed.
+
+Lemma grants_functional P ins : forall r G,
+  wfr r -> inv_grants r G -> functional G -> functional (G ++ grants (run_hist P r ins)).
+Proof.
+  induction ins as [|[[e cut] fs] rest IH]; intros r G Hw Hinv Hfun.
+  - simpl. rewrite app_nil_r. exact Hfun.
+  - rewrite run_hist_cons, grants_cons.
+    pose proof (step_good P r e cut fs Hw) as Hs.
+    destruct (step_full P r e cut fs) as [[r' ob] out]. simpl fst; simpl snd.
+    destruct Hs as (Hw' & Hgood & Hgr & _).
+    destruct Hgood as (_ & Hmono & Hstab & _). unfold dproj in Hmono. simpl in Hmono.
+    (* old grants stay protected *)
+    assert (Hinv' : inv_grants r' G).
+    { intros T c Hin. destruct (Hinv T c Hin) as [Hlt|[Heq HL]].
+      - left. lia.
+      - destruct (N.eq_dec (d_term (image r')) T) as [E|E].
+        + right. split; [exact E|]. apply Hstab; [exact HL|exact E].
+        + left. lia. }
+    remember (grant_of (r, e, ob, r')) as g eqn:Eg.
+    assert (Hg : g = [] \/ exists q t, ob = OVote q t true /\ g = [(vq_term q, vq_addr q)]).
+    { subst g. unfold grant_of. destruct ob as [q t [|]| | | | | |]; auto. right. eauto. }
+    clear Eg. rewrite app_assoc. apply IH; [exact Hw'| |].
+    + intros T c Hin. apply in_app_iff in Hin. destruct Hin as [Hin|Hin]; [apply Hinv'; exact Hin|].
+      destruct Hg as [Hg|(q & t & Hob & Hg)]; rewrite Hg in Hin; [contradiction|].
+      destruct Hin as [Hin|[]]. inversion Hin; subst. right.
+      pose proof (Hgr q t eq_refl) as HL. apply live_term in HL as HT. destruct HT as (HT & _). auto.
+    + intros T c c' H1 H2. apply in_app_iff in H1, H2.
+      destruct Hg as [Hg|(q & t & Hob & Hg)]; rewrite Hg in H1, H2.
+      * destruct H1 as [H1|[]], H2 as [H2|[]]. apply (Hfun T c c' H1 H2).
+      * pose proof (Hgr q t Hob) as HL. apply live_term in HL as HT. destruct HT as (HT & _).
+        assert (Hold : forall x, In (vq_term q, x) G -> x = vq_addr q).
+        { intros x Hx. destruct (Hinv' _ _ Hx) as [Hlt|[_ HL']]; [lia|]. rewrite HL in HL'. inversion HL'. reflexivity. }
+        destruct H1 as [H1|[H1|[]]], H2 as [H2|[H2|[]]].
+        -- apply (Hfun T c c' H1 H2).
+        -- inversion H2; subst. apply Hold. exact H1.
+        -- inversion H1; subst. symmetry. apply Hold. exact H2.
+        -- inversion H1; inversion H2; subst. reflexivity.
+Qed.
+
+(* ---------------------------------------------------------------- the history theorems *)
+Theorem one_vote_per_term P r ins : wfr r -> functional (grants (run_hist P r ins)).
+Proof.
+  intros Hw. change (functional ([] ++ grants (run_hist P r ins))).
+  apply grants_functional; [exact Hw| |]; intros T c; [intros []|intros c' []].
+Qed.
+
+Lemma run_hist_wf P ins : forall r, wfr r ->
+  forall pre e ob post, In (pre, e, ob, post) (run_hist P r ins) -> wfr pre /\ wfr post.
+Proof.
+  induction ins as [|[[e cut] fs] rest IH]; intros r Hw pre e' ob post Hin; simpl in Hin; [contradiction|].
+  pose proof (step_good P r e cut fs Hw) as Hs.
+  destruct (step_full P r e cut fs) as [[r' ob'] out]. destruct Hs as (Hw' & _).
+  destruct Hin as [Hin|Hin].
+  - inversion Hin; subst. auto.
+  - eapply IH; eauto.
+Qed.
+
+Lemma run_hist_step P ins : forall r, wfr r ->
+  forall pre e ob post, In (pre, e, ob, post) (run_hist P r ins) ->
+  exists cut fs out, step_full P pre e cut fs = (post, ob, out) /\ wfr pre.
+Proof.
+  induction ins as [|[[e cut] fs] rest IH]; intros r Hw pre e' ob post Hin; simpl in Hin; [contradiction|].
+  pose proof (step_good P r e cut fs Hw) as Hs.
+  destruct (step_full P r e cut fs) as [[r' ob'] out] eqn:ES. destruct Hs as (Hw' & _).
+  destruct Hin as [Hin|Hin].
+  - inversion Hin; subst. exists cut, fs, out. auto.
+  - eapply IH; eauto.
+Qed.
+
+(* every item of every history: term monotone, well-formed, casts checked, grants persisted *)
+Theorem history_item_good P r ins : wfr r ->
+  forall pre e ob post, In (pre, e, ob, post) (run_hist P r ins) ->
+  d_term (image pre) <= d_term (image post) /\
+  (forall T c, live (image post) = Some (T, c) -> live (image pre) <> Some (T, c) -> cast_ok P (image pre) e T c) /\
+  (forall q t, ob = OVote q t true ->
+     d_term (image post) = vq_term q /\ d_vterm (image post) = vq_term q /\ d_vcand (image post) = Some (vq_addr q)) /\
+  (forall q t g s, ob = OVote q t g -> pre = Up s -> d_term s <= t).
+Proof.
+  intros Hw pre e ob post Hin.
+  destruct (run_hist_step P ins r Hw pre e ob post Hin) as (cut & fs & out & ES & Hwp).
+  pose proof (step_good P pre e cut fs Hwp) as Hs. rewrite ES in Hs.
+  destruct Hs as (_ & (_ & Hmono & _ & Hcast) & Hgr & Hrt).
+  split; [exact Hmono|]. split; [exact Hcast|]. split.
+  - intros q t Hob. apply live_term. apply (Hgr q t Hob).
+  - intros q t g s Hob Hpre. subst pre. destruct Hwp as [_ Hv]. rewrite <- Hv. eapply Hrt; eauto.
+Qed.
